@@ -617,9 +617,11 @@ Section Iface.
   Qed.
 
   Lemma visible_names own :
-    map m_name (filter (visible priv) own) = filter (fun n => priv || exported n) (map m_name own).
+    map m_name (filter (visible priv) own) =
+    filter (fun n => priv || exported n) (map m_name (filter is_meth own)).
   Proof.
     induction own as [|m r IH]; simpl; [reflexivity|]. unfold visible at 1.
+    destruct (is_meth m); simpl; [|exact IH].
     destruct (priv || exported (m_name m)); simpl; rewrite IH; reflexivity.
   Qed.
 
